@@ -75,7 +75,7 @@ theorem writeSnap_ok_inv (objSize : Nat → Option Nat) (w w' : DemoWriter) (tic
     w.lastTick < tick ∧
     ∃ (b b' : Builder) (bs : Bytes) (inner1 : Writer),
       addItems w.builder items = .ok b ∧
-      snapPayload objSize (w.isKeyframe tick) w.snap b.snap = .ok bs ∧
+      snapPayload objSize (w.isKeyframe tick) w.snap b.snap = .ok bs ∧ fitsChunk bs ∧
       w.inner.writeTick (w.isKeyframe tick) tick = (inner1, .ok) ∧
       inner1.writeData (if w.isKeyframe tick then .snapshot else .delta) bs = (w'.inner, .ok) ∧
       nextBuilder b.snap = some b' ∧
@@ -97,6 +97,9 @@ theorem writeSnap_ok_inv (objSize : Nat → Option Nat) (w w' : DemoWriter) (tic
       · split at h <;> cases h
       · rename_i bs hpay
         split at h
+        · split at h <;> cases h
+        rename_i hfit
+        split at h
         · cases h
         · rename_i inner1 hwt
           split at h
@@ -106,12 +109,12 @@ theorem writeSnap_ok_inv (objSize : Nat → Option Nat) (w w' : DemoWriter) (tic
             · cases h
             · rename_i b' hnb
               cases h
-              exact ⟨b, b', bs, inner1, hadd, hpay, hwt, hwd, hnb, rfl⟩
+              exact ⟨b, b', bs, inner1, hadd, hpay, Decidable.not_not.mp hfit, hwt, hwd, hnb, rfl⟩
 
 theorem writeSnap_preserves_inv (objSize : Nat → Option Nat) (w w' : DemoWriter) (hinv : w.Inv) (tick : Int)
     (items : List Item) (hv : ∀ it ∈ items, it.valid)
     (h : w.writeSnap objSize tick items = (w', .ok)) : w'.Inv := by
-  obtain ⟨_, b, b', bs, inner1, hadd, _, _, _, hnb, hw'⟩ := writeSnap_ok_inv objSize w w' tick items h
+  obtain ⟨_, b, b', bs, inner1, hadd, _, _, _, _, hnb, hw'⟩ := writeSnap_ok_inv objSize w w' tick items h
   have hb := addItems_inv items hv w.builder b hinv.binv hadd
   obtain ⟨b'', h1, h2, _, _⟩ := Builder.recycle_inv hb
   unfold nextBuilder at hnb
@@ -176,7 +179,7 @@ theorem keyframe_step (hH : HuffmanRoundTrip) (objSize : Nat → Option Nat) (w 
             | some its => ({ raw := { data := rest, version := v, currentTick := w'.inner.prevTick },
                              snap := w'.snap }, .chunk (.snapshot its), [])
             | none => (r1, .error .panic, []) := by
-  obtain ⟨_, b, b', bs, inner1, hadd, hpay, hwt, hwd, hnb, hw'⟩ := writeSnap_ok_inv objSize w w' tick items h
+  obtain ⟨_, b, b', bs, inner1, hadd, hpay, hfit, hwt, hwd, hnb, hw'⟩ := writeSnap_ok_inv objSize w w' tick items h
   simp only [hk, if_true] at hpay hwt hwd
   have hb := addItems_inv items hv w.builder b hinv.binv hadd
   have hread := keyframe_payload_roundtrip hb hpay
@@ -212,7 +215,7 @@ theorem delta_step (hH : HuffmanRoundTrip) (objSize : Nat → Option Nat) (w w' 
             | some its => ({ raw := { data := rest, version := v, currentTick := w'.inner.prevTick },
                              snap := w'.snap }, .chunk (.snapshot its), [])
             | none => (r1, .error .panic, []) := by
-  obtain ⟨_, b, b', bs, inner1, hadd, hpay, hwt, hwd, hnb, hw'⟩ := writeSnap_ok_inv objSize w w' tick items h
+  obtain ⟨_, b, b', bs, inner1, hadd, hpay, hfit, hwt, hwd, hnb, hw'⟩ := writeSnap_ok_inv objSize w w' tick items h
   simp only [hk, Bool.false_eq_true, if_false] at hpay hwt hwd
   have hb := addItems_inv items hv w.builder b hinv.binv hadd
   have hsnap : w'.snap = b.snap := by rw [hw']
@@ -257,6 +260,8 @@ theorem msg_step (hH : HuffmanRoundTrip) (objSize : Nat → Option Nat) (w w' : 
   · cases h
   · split at h
     · cases h
+    split at h
+    · cases h
     · rename_i inner' hwm
       cases h
       refine ⟨rfl, rfl, rfl, rfl, ?_⟩
@@ -272,6 +277,8 @@ theorem writeMsg_preserves_inv (w w' : DemoWriter) (msg : Bytes) (hinv : w.Inv)
   split at h
   · cases h
   · split at h
+    · cases h
+    split at h
     · cases h
     · cases h
       exact ⟨hinv.builder, hinv.binv, hinv.sok⟩
